@@ -11,7 +11,8 @@
 (*   x.cells   the cells ever created on the main chain:                     *)
 (*             [id, born (height), cb (cellbase output), spent (height|0),   *)
 (*              lock in {"ok","fail","loop"}, args (script group), group     *)
-(*              (sequence of member cell ids for a dep-group cell, else <<>>)] *)
+(*              (sequence of member cell ids for a dep-group cell, else <<>>), *)
+(*              type in {"none","ok"}, targs (type-script group)]             *)
 (*   x.side    block ids that are known but not on the main chain            *)
 (* A commit position `e` (the TxVerifyEnv of the rules) is                   *)
 (*   [number, epoch (a fraction <<n,i,l>>), tip (height whose past-median    *)
@@ -78,14 +79,21 @@ SinceUnmet(x, e, id, s, hi) ==
 -----------------------------------------------------------------------------
 (* tx: [ins: Seq([c, since]), deps: Seq([c, grp]), hdeps: Seq([k in {"main","side","unknown"}, h]),    *)
 (*      sum in {"fee","zero","over"}   (outputs = inputs - fee | = inputs | = inputs + 1 shannon),        *)
-(*      occ in {"roomy","exact","short"} (an output's capacity vs its occupied size: > | = | one less)]   *)
+(*      occ in {"roomy","exact","short"} (an output's capacity vs its occupied size: > | = | one less),   *)
+(*      otype in {"none","ok","fail","loop"} (type script of the first output; its own script group)]     *)
 RuleNames == {"inputs_distinct", "input_live", "dep_live", "dep_group", "header_dep", "capacity_sum",
               "capacity_occupied", "since_flags", "since", "maturity", "script", "cycles"}
 
 InputIds(tx) == [i \in DOMAIN tx.ins |-> tx.ins[i].c]
 \* the cells a dep entry stands for (a group expands to its members; the group cell itself must be live too)
 DepCells(x, d) == IF d.grp THEN {d.c} \cup (IF \E c \in x.cells : c.id = d.c THEN Rng(Cell(x, d.c).group) ELSE {}) ELSE {d.c}
-ScriptGroups(x, tx) == {<<Cell(x, id).lock, Cell(x, id).args>> : id \in {i \in Rng(InputIds(tx)) : \E c \in x.cells : c.id = i}}
+\* script groups: one per distinct lock script of the inputs, one per distinct type script of the inputs AND outputs
+\* (a lock and a type group never merge, even for the same script); every group is run once
+KnownInputs(x, tx) == {i \in Rng(InputIds(tx)) : \E c \in x.cells : c.id = i}
+ScriptGroups(x, tx) ==
+       {<<"lock", Cell(x, id).lock, Cell(x, id).args>> : id \in KnownInputs(x, tx)}
+  \cup {<<"type", Cell(x, id).type, Cell(x, id).targs>> : id \in {i \in KnownInputs(x, tx) : Cell(x, i).type # "none"}}
+  \cup (IF tx.otype # "none" THEN {<<"type", tx.otype, 77>>} ELSE {})
 
 Violated(r, x, ov, e, tx) ==
   CASE r = "inputs_distinct" -> ~NoDup(InputIds(tx))
@@ -102,8 +110,8 @@ Violated(r, x, ov, e, tx) ==
     [] r = "maturity" -> \E id \in Rng(InputIds(tx)) \cup UNION {DepCells(x, tx.deps[j]) : j \in DOMAIN tx.deps} :
                             /\ IsCb(x, id) /\ Cell(x, id).born > 0
                             /\ ~GeqFrac(e.epoch, AddFrac(EpochOf(Cell(x, id).born), <<0, Maturity, L>>))
-    [] r = "script" -> \E g \in ScriptGroups(x, tx) : g[1] = "fail"
-    [] r = "cycles" -> (\E g \in ScriptGroups(x, tx) : g[1] = "loop") \/ Cardinality(ScriptGroups(x, tx)) * GroupCycles > MaxCycles
+    [] r = "script" -> \E g \in ScriptGroups(x, tx) : g[2] = "fail"
+    [] r = "cycles" -> (\E g \in ScriptGroups(x, tx) : g[2] = "loop") \/ Cardinality(ScriptGroups(x, tx)) * GroupCycles > MaxCycles
 
 Must(x, ov, e, tx) == {r \in RuleNames : Violated(r, x, ov, e, tx)}
 May(x, ov, e, tx) ==
